@@ -164,3 +164,11 @@ Definition c17_flow_bad (c : bool * bool * bs * N * bs * bool * bs) : bool :=
 (* correspondence of the logout redirect: (url.Parse failed?, user of the session, Location) *)
 Definition c17_logout_bad (c : bool * bs * bs) : bool :=
   let '(pf, u, o) := c in negb (bs_eqb (logout_location pf u) o).
+
+(* correspondence of the login page's hidden input for a GET: (come-back path?, r.URL.String(),
+   ensureHTMLSafeLoginDestination of it, ensureHTMLSafeLoginDestination of the profile page — the
+   url.Parse/String round trip is an input —, value of the hidden input in the served page) *)
+Definition c17_page_bad (c : bool * bs * bs * bs * bs) : bool :=
+  let '(comeback, u, e_u, e_profile, hidden) := c in
+  let q := {| pr_post := false; pr_comeback := comeback; pr_url := u; pr_form := [] |} in
+  negb (bs_eqb hidden (if bs_eqb (page_destination q) u then e_u else e_profile)).
